@@ -47,6 +47,7 @@ func vfH_C04_stack() {
 	cfg.Name = "fw"
 	tfOn, authOn, localOn, domOn := vfrt.Choice("timeframe-on", 2) == 1, vfrt.Choice("auth-on", 2) == 1, vfrt.Choice("deny-localhost-on", 2) == 1, vfrt.Choice("deny-domains-on", 2) == 1
 	tfAllows, domDenies := true, false
+	var asked []string
 	if tfOn {
 		tfAllows = vfrt.Choice("timeframe-allows", 2) == 1
 		cfg.AllowTimeFrame = vfTimeFrames(tfAllows)
@@ -61,7 +62,7 @@ func vfH_C04_stack() {
 	}
 	if domOn {
 		domDenies = vfrt.Choice("domain-denied", 2) == 1
-		cfg.DenyDomains = vfMatcher{domDenies}
+		cfg.DenyDomains = vfMatcher{domDenies, &asked}
 	}
 	hp := vfNewHTTPProxy(cfg)
 	mw := hp.proxy.RequestModifier
@@ -103,6 +104,10 @@ func vfH_C04_stack() {
 
 	err := mw.ModifyRequest(req)
 
+	// deny-domains is asked about the bare host name (no port, no brackets), whatever the spelling of the target
+	for _, a := range asked {
+		vfrt.Assert(a == []string{"localhost", "LocalHost", "127.0.0.1", "::1", "example.com", "10.1.2.3"}[hostIdx], "stack/deny-domains-sees-the-bare-host-name")
+	}
 	fails451 := tfOn && !tfAllows
 	fails407 := authOn && !credsOK
 	fails403 := (localOn && isLocal) || (domOn && domDenies)
